@@ -146,7 +146,9 @@ func main() {
 			n := j.mapRange(fs[2], strings.Join(fs[3:], " "))
 			report = append(report, fmt.Sprintf("maprange %s %s %s: %d", fs[1], fs[2], strings.Join(fs[3:], " "), n))
 			if n == 0 {
-				die("maprange %s func %s expr %q: not found", fs[1], fs[2], strings.Join(fs[3:], " "))
+				// not fatal: a tree in which this loop was refactored away (e.g. iterating sorted keys) still has to be
+				// checkable; the iteration order of whatever replaced it is then simply not an explorer choice
+				fmt.Fprintf(os.Stderr, "OVERLAY-NOTE: maprange %s func %s expr %q: no such range statement in this tree; map iteration orders there are not enumerated\n", fs[1], fs[2], strings.Join(fs[3:], " "))
 			}
 		case "addfile":
 			replace[filepath.Join(*repo, fs[1])] = filepath.Join(*verif, "overlay", fs[2])
